@@ -184,4 +184,20 @@ CHECKS["C06"] = {
           "ancillary data over basin data in RTDCBase.__getitem__, and obj2bytes' injectivity on arrays (dtype/shape, cf. C17) are not under contract.",
   "technique": "contract-based deductive verification: AST-generated VCs incl. relational non-interference obligations over path pairs and a "
                "derived reads/hash frame, discharged by z3"}
+CHECKS["C15"] = {
+  "text": "Proof over the cy2py text of _shared/geometry.pyx that point_in_polygon returns the parity of the number of polygon edges "
+          "crossed by the rightward ray (loop invariant over a ghost parity; the specification of one crossing is a division-free cross "
+          "product, proved equivalent to the code's quotient form; no division by zero), that points_in_polygon classifies every point "
+          "(loop invariant), that pnpoly.points_in_poly passes vertices and points on unchanged, that PolygonFilter.filter == inside XOR "
+          "inverted for the filter's own vertices and PolygonFilter.copy(invert) inverts by XOR. Lemmas: a crossing does not depend on the "
+          "edge's direction, a degenerate edge (repeated / closing vertex) is never crossed.",
+  "note": "Independence of starting vertex, orientation and a repeated closing vertex follows from the two edge lemmas by the multiset "
+          "argument (stated, the induction over the vertex list is not machine-checked) and is exercised end to end by the bounded layer. "
+          "Real arithmetic stands for double arithmetic (points on the boundary are outside the statement). The compiled glue "
+          "_pnpoly._points_in_poly (pointer arithmetic) is outside cy2py's subset: covered by a differential run of the verified text against "
+          "the extension module (bounded). PolygonFilter.save/_load (text formatting and parsing) is outside the accepted subset: decided by "
+          "the bounded round-trip stand-in (names incl. '=', brackets, unicode; repeated vertices; identifier), labelled bounded. Known "
+          "finding D28: a name with leading/trailing white space is stripped on load.",
+  "technique": "contract-based deductive verification: AST-generated VCs (cy2py text of the .pyx) with loop invariants, lemma hints and "
+               "nonlinear real arithmetic, discharged by z3; bounded round-trip replay for the .poly text format"}
 NOT_APPLICABLE = {}
